@@ -1,8 +1,122 @@
-(** Property C01 — muxed samples read back exactly (theorems; proofs in Proofs/MuxProofs.v) *)
-From MP4 Require Import Writer MuxProofs.
+(** Property C01 — muxed samples read back exactly (theorems; proofs in Proofs/MuxProofs.v, Proofs/MuxInv.v) *)
+From MP4 Require Import Writer SampleTable MuxProofs MuxInv.
+Open Scope list_scope.
+Open Scope N_scope.
 
 Theorem C01_rejected_calls_leave_no_trace : forall m ops w acc w1 cls,
   run_ops m w ops acc = Ok (w1, cls) ->
   forall acc2, exists cls', run_ops m w (accepted_ops m w ops) acc2 = Ok (w1, cls').
 Proof. exact rejected_leave_no_trace. Qed.
 Print Assumptions C01_rejected_calls_leave_no_trace.
+
+(** The full model-level statement.  The accepted history of track [i+1] is the list of the samples of the
+    [write_sample(i+1, _)] calls whose recorded outcome is [Ok] ([accepted_samples]); [ops_typed] says that
+    durations are [u32] and rendering offsets [i32] values (the Rust field types); [history_fits] that the
+    stream position after the last payload byte stays below 2^63.  The other two conditions of the documented
+    domain (sample shorter than 2^32 bytes, fewer than 2^32-2 samples per track) are enforced by the writer
+    itself ([C01_domain_enforced]).  The tables are read through the ISO specification functions of
+    [Spec/SampleTable.v]; [sliceN off len l] is the [len] bytes of [l] at offset [off]. *)
+Definition C01_statement : Prop := forall m base cfg ops cls f,
+  run_mux m base cfg ops = Ok (cls, f) ->
+  ops_typed ops = true ->
+  history_fits base cfg ops cls = true ->
+  forall i tf, nth_error (mf_tracks f) i = Some tf ->
+    let ss := accepted_samples ops cls (N.of_nat i + 1) in
+    let tb := tf_tables tf in
+    consistent tb = true /\
+    t_stsz_count tb = lenN ss /\
+    forall k s, nth1 ss k = Some s ->
+      spec_size tb k = Some (lenN (ws_bytes s)) /\
+      spec_delta tb k = Some (ws_duration s) /\
+      spec_start tb k = sumN (map ws_duration (firstn (N.to_nat (k - 1)) ss)) /\
+      spec_cts tb k = Some (ws_rendering_offset s) /\
+      spec_sync tb k = ws_is_sync s /\
+      exists off, spec_offset tb k = Some off /\
+                  mf_mdat_pos f + 16 <= off /\
+                  off + lenN (ws_bytes s) <= mf_base f + lenN (mf_out f) /\
+                  sliceN (off - mf_base f) (lenN (ws_bytes s)) (mf_out f) = ws_bytes s.
+
+Theorem C01_mux_demux_fidelity : C01_statement.
+Proof. exact mux_fidelity_history. Qed.
+Print Assumptions C01_mux_demux_fidelity.
+
+(** the same with the size bound stated on the output instead of the history (any bound below 2^64 will do) *)
+Theorem C01_mux_demux_fidelity_u64 : forall m base cfg ops cls f,
+  run_mux m base cfg ops = Ok (cls, f) -> ops_typed ops = true ->
+  (mf_base f + lenN (mf_out f) <? U64) = true ->
+  forall i tf, nth_error (mf_tracks f) i = Some tf ->
+    let ss := accepted_samples ops cls (N.of_nat i + 1) in
+    consistent (tf_tables tf) = true /\ t_stsz_count (tf_tables tf) = lenN ss /\
+    sample_fidelity f (tf_tables tf) ss.
+Proof. exact mux_fidelity. Qed.
+Print Assumptions C01_mux_demux_fidelity_u64.
+
+(** the output is the ftyp box, the 16 bytes of mdat/wide headers and the accepted payload, nothing else *)
+Theorem C01_output_length : forall m base cfg ops cls f,
+  run_mux m base cfg ops = Ok (cls, f) -> ops_typed ops = true ->
+  mf_base f = base /\ lenN (mf_out f) = lenN (ftyp_bytes cfg) + 16 + accepted_bytes ops cls.
+Proof. exact mux_out_length. Qed.
+Print Assumptions C01_output_length.
+
+Theorem C01_domain_enforced : forall m base cfg ops cls f,
+  run_mux m base cfg ops = Ok (cls, f) -> ops_typed ops = true ->
+  forall i tf, nth_error (mf_tracks f) i = Some tf ->
+    let ss := accepted_samples ops cls (N.of_nat i + 1) in
+    lenN ss < U32 - 1 /\ Forall (fun s => lenN (ws_bytes s) < U32) ss.
+Proof. exact mux_domain. Qed.
+Print Assumptions C01_domain_enforced.
+
+Theorem C01_no_samples_outside_tracks : forall m base cfg ops cls f,
+  run_mux m base cfg ops = Ok (cls, f) -> ops_typed ops = true ->
+  forall i, (length (mf_tracks f) <= i)%nat -> accepted_samples ops cls (N.of_nat i + 1) = [].
+Proof. exact mux_no_stray_samples. Qed.
+Print Assumptions C01_no_samples_outside_tracks.
+
+(** FINDING (model = src/track.rs write_end -> write_chunk -> update_sample_to_chunk): the derived, never
+    serialised [first_sample] of an stsc run that is created by the final flush is one too large
+    ([sample_id] was already incremented).  The file is unaffected (the decoder re-derives the field), but the
+    lookup functions applied directly to the writer's in-memory tables return a wrong offset: the composition
+    "lookup = specification" must go through the re-derived [first_sample] values. *)
+Theorem C01_writer_first_sample_refuted :
+  exists cls f tf,
+    run_mux Dbg 0 ex_cfg ex2_ops = Ok (cls, f) /\ nth_error (mf_tracks f) 0 = Some tf /\
+    derive_first_samples (t_stsc (tf_tables tf)) 1 <> Some (t_stsc (tf_tables tf)) /\
+    spec_offset (tf_tables tf) 5 = Some 50 /\
+    sample_offset Dbg (mkTrack 1 (tf_tables tf) [] 0) 5 = Ok 46.
+Proof. exact writer_first_sample_refuted. Qed.
+Print Assumptions C01_writer_first_sample_refuted.
+
+(** ** Non-vacuity: the hypotheses hold of a concrete, non-trivial history, and the conclusion is what one expects *)
+Example C01_ex_runs : exists f, run_mux Dbg 100 ex_cfg ex_ops = Ok (ex_cls, f) /\ length (mf_tracks f) = 2%nat.
+Proof. eexists. split; [vm_compute; reflexivity|reflexivity]. Qed.
+
+Example C01_ex_hypotheses : ops_typed ex_ops = true /\ history_fits 100 ex_cfg ex_ops ex_cls = true.
+Proof. split; vm_compute; reflexivity. Qed.
+
+Example C01_ex_histories :
+  map (fun s => (ws_duration s, ws_rendering_offset s, ws_is_sync s, ws_bytes s)) (accepted_samples ex_ops ex_cls 1)
+    = [(500, 0%Z, true, [1; 2; 3]); (500, 0%Z, false, [4; 5; 6]); (500, 0%Z, false, []); (500, 250%Z, true, [7]);
+       (300, (-20)%Z, false, [])] /\
+  map ws_bytes (accepted_samples ex_ops ex_cls 2) = [[9; 9]; [8; 8]; []] /\
+  accepted_samples ex_ops ex_cls 3 = [].
+Proof. repeat split; vm_compute; reflexivity. Qed.
+
+(** the rejected calls are exactly those the history says: before any track, missing track, track 0, timescale 0 *)
+Example C01_ex_tables :
+  match run_mux Dbg 100 ex_cfg ex_ops with
+  | Ok (_, f) =>
+      match mf_tracks f with
+      | [v; a] =>
+          let tb := tf_tables v in
+          map (spec_size tb) [1; 2; 3; 4; 5; 6] = [Some 3; Some 3; Some 0; Some 1; Some 0; None] /\
+          map (spec_cts tb) [1; 2; 3; 4; 5] = [Some 0; Some 0; Some 0; Some 250; Some (-20)]%Z /\
+          map (spec_sync tb) [1; 2; 3; 4; 5] = [true; false; false; true; false] /\
+          map (spec_start tb) [1; 2; 3; 4; 5] = [0; 500; 1000; 1500; 2000] /\
+          map (spec_offset tb) [1; 2; 3; 4; 5] = [Some 140; Some 143; Some 150; Some 150; Some 151] /\
+          map (spec_offset (tf_tables a)) [1; 2; 3] = [Some 146; Some 148; Some 151] /\
+          sliceN (143 - 100) 3 (mf_out f) = [4; 5; 6] /\ sliceN (148 - 100) 2 (mf_out f) = [8; 8]
+      | _ => False
+      end
+  | _ => False
+  end.
+Proof. vm_compute. repeat split; reflexivity. Qed.
